@@ -1,5 +1,13 @@
-"""Native builders for the `rep` group: concrete Representation / DashTiming / reference objects."""
+"""Native builders for the `rep` group: concrete Representation / DashTiming / reference objects.
+LiveMedia / ServeMpsMedia methods live in a module that cannot be imported offline (flask_login is not
+installed), so they are extracted mechanically from the source text and exec'd with their real free names."""
+import ast
 import datetime
+import logging
+import math
+import os
+import textwrap
+from typing import NamedTuple
 
 from dashlive.mpeg.dash.reference import StreamTimingReference
 from dashlive.mpeg.dash.representation import Representation
@@ -7,7 +15,36 @@ from dashlive.mpeg.dash.segment import Segment
 from dashlive.mpeg.dash.timing import DashTiming
 from dashlive.utils.timezone import UTC
 
+REPO = os.environ.get('PYVC_REPO', '/repo')
 EPOCH = datetime.datetime(1970, 1, 1, tzinfo=UTC())
+
+
+class SegmentPosition(NamedTuple):
+    mod_segment: int
+    origin_time: int
+    seg_num: int
+
+
+def extract_method(relpath, cls_name, meth, extra_ns=None):
+    src = open(os.path.join(REPO, relpath)).read()
+    tree = ast.parse(src)
+    for cls in tree.body:
+        if isinstance(cls, ast.ClassDef) and cls.name == cls_name:
+            for fn in cls.body:
+                if isinstance(fn, ast.FunctionDef) and fn.name == meth:
+                    ns = {'datetime': datetime, 'logging': logging, 'math': math, 'SegmentPosition': SegmentPosition,
+                          'Representation': Representation, 'DashTiming': DashTiming, 'cast': lambda t, v: v}
+                    ns.update(extra_ns or {})
+                    fn.returns = None
+                    for a in fn.args.args:
+                        a.annotation = None
+                    mod = ast.Module(body=[fn], type_ignores=[])
+                    for node in ast.walk(mod):
+                        if isinstance(node, ast.AnnAssign) and node.value is None:
+                            node.annotation = ast.Constant(None)
+                    exec(compile(ast.fix_missing_locations(mod), relpath, 'exec'), ns)
+                    return ns[meth]
+    raise KeyError(f'{cls_name}.{meth}')
 
 
 def make_timing(mode, ref, i):
@@ -19,7 +56,7 @@ def make_timing(mode, ref, i):
     t.firstAvailableTime = us('F')
     t.leeway = us('W')
     t.timeShiftBufferDepth = int(i.get('B', 0))
-    t.now = EPOCH + us('now', 86400 * 10**6 * 365 * 50)
+    t.now = EPOCH + datetime.timedelta(days=365 * 50)
     t.availabilityStartTime = t.now - t.elapsedTime
     t.publishTime = t.now.replace(microsecond=0)
     t.minimumUpdatePeriod = None
@@ -31,7 +68,7 @@ def make_rep(i, mode='live'):
     d = [int(x) for x in i['d']]
     ts = int(i['ts'])
     # R is a free constant in most VCs; realise it with Rref = R at the representation's own timescale
-    if 'Rref' in i and 'tsref' in i and i.get('use_ref'):
+    if i.get('use_ref'):
         Rref, tsref = int(i['Rref']), int(i['tsref'])
     else:
         Rref, tsref = int(i['R']), ts
@@ -39,9 +76,9 @@ def make_rep(i, mode='live'):
                                 segment_duration=int(i.get('ref_sd', i.get('sd', 1))), timescale=tsref)
     pos = i.get('pos') or [100 + 50 * k for k in range(len(d) + 1)]
     size = i.get('size') or [50] * (len(d) + 1)
-    segs = [Segment(pos=pos[0], size=size[0])]
+    segs = [Segment(pos=int(pos[0]), size=int(size[0]))]
     for k, dur in enumerate(d):
-        segs.append(Segment(pos=pos[k + 1], size=size[k + 1], duration=dur))
+        segs.append(Segment(pos=int(pos[k + 1]), size=int(size[k + 1]), duration=dur))
     rep = Representation(id='r1', content_type='video', segments=segs, timescale=ts,
                          segment_duration=int(i.get('sd', 1)), start_number=int(i.get('sn', 1)),
                          start_time=int(i.get('t0', 0)), track_id=int(i.get('track_id', 1)))
@@ -55,14 +92,19 @@ def spec_env(rep, ref, i):
     for x in d[1:]:
         S.append(S[-1] + x)
     ts = rep.timescale
+    R = ref.media_duration * ts // ref.timescale
+    one_us = datetime.timedelta(microseconds=1)
     return {
         'n': rep.num_media_segments, 'ts': ts, 'sd': rep.segment_duration, 'sn': rep.start_number,
-        't0': rep.start_time, 'Rref': ref.media_duration, 'tsref': ref.timescale,
-        'R': ref.media_duration * ts // ref.timescale, 'M': S[-1],
+        't0': rep.start_time, 'Rref': ref.media_duration, 'tsref': ref.timescale, 'R': R, 'M': S[-1],
         'd': lambda k: d[k] if 1 <= k < len(d) else 0, 'S': lambda k: S[k] if 0 <= k < len(S) else 0,
         'pos': lambda k: rep.segments[k].pos, 'size': lambda k: rep.segments[k].size,
-        'rep_valid': rep.num_media_segments >= 2 and ts >= 1 and rep.segment_duration >= 1 and all(x >= 1 for x in d[1:]),
-        'E': i.get('E', 0), 'F': i.get('F', 0), 'W': i.get('W', 0), 'B': i.get('B', 0),
+        'rep_valid': rep.num_media_segments >= 2 and ts >= 1 and (rep.segment_duration or 0) >= 1 and all(x >= 1 for x in d[1:]),
+        'E': int(i.get('E', 0)), 'F': int(i.get('F', 0)), 'W': int(i.get('W', 0)), 'B': int(i.get('B', 0)),
+        'live_clock': int(i.get('E', 0)) >= 0 and int(i.get('B', 0)) >= 0 and int(i.get('W', 0)) >= 0
+        and int(i.get('F', 0)) == int(i.get('E', 0)) - 10**6 * int(i.get('B', 0)) and int(i.get('F', 0)) >= 0,
+        'Lof': lambda tc: rep.get_segment_index(tc)[2] // R if R > 0 else 0,
+        'micros': lambda td: td // one_us, 'zmax': max, 'zmin': min,
     }
 
 
@@ -70,15 +112,77 @@ def build(key, variant, i):
     qual = key.split(':')[1]
     if 'd' not in i:
         raise ValueError('model has no finite duration list (n too large or missing)')
-    mode = 'vod' if 'vod' in variant else 'live'
+    mode = 'vod' if variant.startswith('vod') else 'live'
     rep, ref = make_rep(i, mode)
     env = spec_env(rep, ref, i)
     env['self'] = rep
+    geti = lambda k: None if i.get(k) is None else int(i[k])
     if qual == 'StreamTimingReference.media_duration_using_timescale':
-        env['self'] = ref
-        env['timescale'] = rep.timescale
+        rep, ref = make_rep(dict(i, use_ref=True), mode)
+        env = spec_env(rep, ref, i)
+        env.update(self=ref, timescale=rep.timescale)
         return {'env': env, 'call': lambda: ref.media_duration_using_timescale(rep.timescale)}
     if qual == 'Representation.get_segment_index':
         env['timecode'] = int(i['timecode'])
         return {'env': env, 'call': lambda: rep.get_segment_index(int(i['timecode']))}
+    if qual == 'Representation.calculate_segment_from_timecode':
+        env.update(timecode=int(i['timecode']), drift_compensate=True)
+        return {'env': env, 'call': lambda: rep.calculate_segment_from_timecode(int(i['timecode']), True)}
+    if qual == 'Representation.timescale_to_timedelta':
+        env['timecode'] = int(i['timecode'])
+        return {'env': env, 'call': lambda: rep.timescale_to_timedelta(int(i['timecode']))}
+    if qual == 'Representation.calculate_first_and_last_segment_number':
+        return {'env': env, 'call': lambda: rep.calculate_first_and_last_segment_number()}
+    if qual == 'Representation.calculate_segment_number_and_time':
+        num = geti('segment_num') if variant.endswith('number') else None
+        tim = geti('segment_time') if variant.endswith('time') else None
+        env.update(segment_num=num, segment_time=tim)
+        return {'env': env, 'call': lambda: tuple(rep.calculate_segment_number_and_time(tim, num))}
+    if qual == 'LiveMedia.calculate_media_segment_index':
+        fn = extract_method('dashlive/server/requesthandler/media_requests.py', 'LiveMedia', 'calculate_media_segment_index')
+        num = geti('seg_num') if variant.endswith('number') else None
+        tim = geti('seg_time') if variant.endswith('time') else None
+        env.update(seg_num=num, seg_time=tim, mode=mode, representation=rep, timing=rep._timing)
+        return {'env': env, 'call': lambda: tuple(fn(None, mode, rep, rep._timing, num, tim))}
+    if qual == 'Representation.generateSegmentList':
+        return {'env': env, 'call': lambda: rep.generateSegmentList()}
+    if qual == 'Representation.generateSegmentTimeline':
+        return {'env': env, 'call': lambda: rep.generateSegmentTimeline()}
     raise KeyError(qual)
+
+
+# ----------------------------------------------------------------------------- recorded findings (compositions)
+def finding_number_leeway(i):
+    """C01 $Number$: a number whose 5.3.9.5.3 availability window (from manifest values only) contains now is
+    refused when the leeway is shorter than two segment durations."""
+    from fractions import Fraction
+    rep, ref = make_rep(i, 'live')
+    fn = extract_method('dashlive/server/requesthandler/media_requests.py', 'LiveMedia', 'calculate_media_segment_index')
+    ts, sd, sn = rep.timescale, rep.segment_duration, rep.start_number
+    E, B = Fraction(int(i['E']), 10**6), int(i['B'])
+    D = Fraction(sd, ts)
+    k = int(i['k'])
+    in_window = (k + 1) * D <= E <= (k + 2) * D + B
+    try:
+        fn(None, 'live', rep, rep._timing, sn + k, None)
+        refused = False
+        obs = 'accepted'
+    except ValueError as err:
+        refused = True
+        obs = f'ValueError: {str(err)[:160]}'
+    return in_window and refused, f'number {sn + k}: window contains now={float(E)}s: {in_window}; {obs}'
+
+
+def finding_cross_track_drift(i):
+    """C02: when Rref*ts is not a multiple of tsref the floor in R shortens every loop of this track by a fraction
+    of a tick, so after L loops the loop origin of the track and of the reference differ by more than a tick."""
+    from fractions import Fraction
+    rep, ref = make_rep(dict(i, use_ref=True), 'live')
+    ts = rep.timescale
+    R = ref.media_duration_using_timescale(ts)
+    L = int(i['loops'])
+    m, start, origin = rep.get_segment_index(L * R)
+    track_s = Fraction(origin, ts)
+    ref_s = Fraction(L * ref.media_duration, ref.timescale)
+    diff = ref_s - track_s
+    return abs(diff) > Fraction(1, ts), f'after {L} loops the track origin is {float(track_s):.6f}s, the reference {float(ref_s):.6f}s (drift {float(diff):.6f}s)'
